@@ -17,6 +17,8 @@ def Fm(t):
     s, m, e, bc = t
     if m == 0 and e != 0:
         raise ValueError("non-finite value in an exact expression")
+    if abs(e) > 20000:
+        raise ValueError("exponent too large to materialise in an exact rational expression")
     return {"t": "f", "s": int(s), "m": enc.limbs(m), "e": enc.native(e), "bc": enc.native(bc)}
 
 
